@@ -174,6 +174,12 @@ def check_universe(ctx, name, uni, psl):
         ctx.ev(len(uni) * 3)
 
 
+def universe_d():
+    return build(["nip.io", "10.0.0.1.nip.io", "example.com", "localhost.example.com", "amazonaws.com", "aws.amazonaws.com", "docs.aws.amazonaws.com", "os.fedoraproject.org", "x.os.fedoraproject.org",
+                  "httpbin.org", "api.httpbin.org", "https.example.org", "my_shop.example.com", "github.io", "a.github.io", "b.a.github.io", "cafe.be", "dead.beef.cafe.be"],
+                 [(), ("x",)], queries=(None, "k=1", "next=https://example.com/login"), frags=(None, "f", "http://o.org/r"))
+
+
 def run(ctx):
     import ural.tld_data as data
 
@@ -192,9 +198,7 @@ def run(ctx):
                 ctx.count("universe-A-bundled-list-disagrees-with-pinned-rules")
         check_universe(ctx, "A", A, psl_a)
         # hosts that merely START like a special host, and hosts under an interior (non-rule) node of a longer private rule
-        D = build(["nip.io", "10.0.0.1.nip.io", "example.com", "localhost.example.com", "amazonaws.com", "aws.amazonaws.com", "docs.aws.amazonaws.com", "os.fedoraproject.org", "x.os.fedoraproject.org",
-                   "httpbin.org", "api.httpbin.org", "https.example.org", "my_shop.example.com", "github.io", "a.github.io", "b.a.github.io", "cafe.be", "dead.beef.cafe.be"],
-                  [(), ("x",)], queries=(None, "k=1", "next=https://example.com/login"), frags=(None, "f", "http://o.org/r"))
+        D = universe_d()
         ctx.sample("universe-D", [D[0]["url"], D[-1]["url"]])
         check_universe(ctx, "D", D, psl)
         if ctx.tier == "thorough":
@@ -227,6 +231,10 @@ def replay(ctx, witness):
                 "path": tuple(s for s in sp.path.split("/")[1:] if s), "query": sp.query or None, "fragment": sp.fragment or None, "url": url}
 
     if "u" not in witness:
+        # a call-order / spelling witness only shows within its sequence of calls: the deterministic universes are run again
+        ctx.shard, ctx.nshards = 0, 1
+        check_universe(ctx, "A", build(HOSTS_A, PATHS_A), PSL(RULES_A))
+        check_universe(ctx, "D", universe_d(), psl)
         return
     sa = witness["suffix_aware"]
     u, v = rec(witness["u"]), rec(witness["v"])
